@@ -2,7 +2,6 @@ package main
 
 import (
 	"fmt"
-	"os"
 	"go/ast"
 	"go/token"
 	"go/types"
@@ -10,6 +9,7 @@ import (
 	"strings"
 
 	"golang.org/x/tools/go/cfg"
+	"golang.org/x/tools/go/packages"
 	"golang.org/x/tools/go/ssa"
 )
 
@@ -1138,7 +1138,8 @@ func derivePairs(c *Ctx, cts map[string]*types.Named) []keyField {
 		default:
 			return false
 		}
-		return strings.HasSuffix(n, "Key") || strings.HasPrefix(n, "prefix") || strings.HasPrefix(n, "key") || strings.HasSuffix(n, "Prefix")
+		ln := strings.ToLower(n)
+		return strings.HasSuffix(n, "Key") || strings.HasPrefix(ln, "prefix") || strings.HasPrefix(n, "key") || strings.HasSuffix(n, "Prefix")
 	}
 	for _, d := range builders {
 		f := c.P.NewFuncCFG(d)
@@ -1169,8 +1170,11 @@ func derivePairs(c *Ctx, cts map[string]*types.Named) []keyField {
 					keys = append(keys, s)
 				}
 			}
-			if os.Getenv("NV_DEBUG") != "" {
-				fmt.Println("DBG pair cand", FuncKey(d.Obj), types.ExprString(as.Lhs[0]), keys)
+			if len(keys) == 0 {
+				// the value comes from a loader of package native: look into it (two levels)
+				for s := range deepKeyMentions(c, f, as.Rhs[0], isKeySym) {
+					keys = append(keys, s)
+				}
 			}
 			if len(keys) == 1 && !seenPair[keys[0]+symOf(v)] {
 				seenPair[keys[0]+symOf(v)] = true
@@ -1179,8 +1183,199 @@ func derivePairs(c *Ctx, cts map[string]*types.Named) []keyField {
 			return true
 		})
 	}
-	sort.Slice(out, func(i, j int) bool { return out[i].key < out[j].key })
+	// fields initialised in the cache literal itself: &XCache{f: load(key)}
+	for _, d := range builders {
+		f := c.P.NewFuncCFG(d)
+		ast.Inspect(d.Decl.Body, func(n ast.Node) bool {
+			cl, ok := n.(*ast.CompositeLit)
+			if !ok {
+				return true
+			}
+			nt, ok := pk.TypesInfo.TypeOf(cl).(*types.Named)
+			if !ok || cts[nt.Obj().Name()] != nt {
+				return true
+			}
+			st, _ := nt.Underlying().(*types.Struct)
+			for _, el := range cl.Elts {
+				kv, ok := el.(*ast.KeyValueExpr)
+				if !ok {
+					continue
+				}
+				id, ok := kv.Key.(*ast.Ident)
+				if !ok || st == nil {
+					continue
+				}
+				var fv *types.Var
+				for i := 0; i < st.NumFields(); i++ {
+					if st.Field(i).Name() == id.Name {
+						fv = st.Field(i)
+					}
+				}
+				if fv == nil {
+					continue
+				}
+				var keys []string
+				for s := range deepKeyMentions(c, f, kv.Value, isKeySym) {
+					keys = append(keys, s)
+				}
+				if len(keys) == 1 && !seenPair[keys[0]+symOf(fv)] {
+					seenPair[keys[0]+symOf(fv)] = true
+					out = append(out, keyField{keys[0], symOf(fv), nt.Obj().Name()})
+				}
+			}
+			return true
+		})
+	}
+	// seek-filled fields: d.Seek(id, SeekRange{Prefix: K...}, func(k, v) { cache.f... = ... }) inside a builder
+	for _, d := range builders {
+		f := c.P.NewFuncCFG(d)
+		ast.Inspect(d.Decl.Body, func(n ast.Node) bool {
+			call, ok := n.(*ast.CallExpr)
+			if !ok || len(call.Args) < 2 {
+				return true
+			}
+			if cs := f.calleeSym(call); !strings.HasSuffix(cs, ".Seek") && !strings.HasSuffix(cs, ".SeekAsync") {
+				return true
+			}
+			lit, ok := call.Args[len(call.Args)-1].(*ast.FuncLit)
+			if !ok {
+				return true
+			}
+			var keys []string
+			for _, a := range call.Args[:len(call.Args)-1] {
+				for s := range nativeKeyMentions(c, f, a, isKeySym) {
+					keys = append(keys, s)
+				}
+			}
+			if len(keys) != 1 {
+				return true
+			}
+			ast.Inspect(lit.Body, func(m ast.Node) bool {
+				var ws2 []fieldAccess
+				ws2 = append(ws2, nodeWrites(pk.TypesInfo, m, false)...)
+				if cl, ok := m.(*ast.CallExpr); ok {
+					if cd := staticCalleeDecl(c.P, pk.TypesInfo, cl); cd != nil {
+						var fl []string
+						for fld := range ws.Trans[cd.Obj] {
+							fl = append(fl, fld)
+						}
+						sort.Strings(fl)
+						for _, fld := range fl {
+							ws2 = append(ws2, fieldAccess{Field: fld})
+						}
+					}
+				}
+				for _, w := range ws2 {
+					owner := ""
+					for name := range cts {
+						if fieldOwner(pk, name, w.Field) {
+							owner = name
+						}
+					}
+					if owner != "" && !seenPair[keys[0]+w.Field] {
+						seenPair[keys[0]+w.Field] = true
+						out = append(out, keyField{keys[0], w.Field, owner})
+					}
+				}
+				return true
+			})
+			return true
+		})
+	}
+	sort.Slice(out, func(i, j int) bool { return out[i].key+out[i].field < out[j].key+out[j].field })
 	return out
+}
+
+// fieldOwner: is fieldSym ("pkg#name") a field of the named struct type of package native?
+func fieldOwner(pk *packages.Package, typeName, fieldSym string) bool {
+	tn, ok := pk.Types.Scope().Lookup(typeName).(*types.TypeName)
+	if !ok {
+		return false
+	}
+	st, ok := tn.Type().Underlying().(*types.Struct)
+	if !ok {
+		return false
+	}
+	for i := 0; i < st.NumFields(); i++ {
+		if symOf(st.Field(i)) == fieldSym {
+			return true
+		}
+	}
+	return false
+}
+
+// deepKeyMentions: key symbols mentioned by e or by the bodies of the package-native functions/methods it calls
+// (two levels): `cache.gasPerBlock = n.getSortedGASRecordFromDAO(d)`.
+func deepKeyMentions(c *Ctx, f *FuncCFG, e ast.Node, isKeySym func(string) bool) map[string]bool {
+	out := map[string]bool{}
+	seen := map[*types.Func]bool{}
+	var walk func(f *FuncCFG, e ast.Node, depth int)
+	walk = func(f *FuncCFG, e ast.Node, depth int) {
+		for s := range f.Mentions(e, nil) {
+			if isKeySym(s) {
+				out[s] = true
+			}
+		}
+		if depth >= 2 {
+			return
+		}
+		ast.Inspect(e, func(n ast.Node) bool {
+			cl, ok := n.(*ast.CallExpr)
+			if !ok {
+				return true
+			}
+			cd := staticCalleeDecl(c.P, f.Info, cl)
+			if cd == nil || cd.Decl.Body == nil || pkgRel(cd.Pkg.Types) != natPkg || seen[cd.Obj] {
+				return true
+			}
+			seen[cd.Obj] = true
+			if hf := c.P.NewFuncCFG(cd); hf != nil {
+				walk(hf, cd.Decl.Body, depth+1)
+			}
+			return true
+		})
+	}
+	walk(f, e, 0)
+	return out
+}
+
+// nativeKeyMentions: key symbols mentioned by e, looking one level into key-builder functions of package native
+// (makeXKey(h) { return append([]byte{prefixX}, ...) }).
+func nativeKeyMentions(c *Ctx, f *FuncCFG, e ast.Node, isKeySym func(string) bool) map[string]bool {
+	out := map[string]bool{}
+	var walk func(f *FuncCFG, e ast.Node, depth int)
+	walk = func(f *FuncCFG, e ast.Node, depth int) {
+		for s := range f.Mentions(e, nil) {
+			if isKeySym(s) {
+				out[s] = true
+				continue
+			}
+			if depth >= 2 || !strings.HasPrefix(s, natPkg+".") {
+				continue
+			}
+			name := strings.TrimPrefix(s, natPkg+".")
+			if strings.ContainsAny(name, "().") {
+				continue // methods are not key builders
+			}
+			fd := c.P.Func(natPkg, "", name)
+			if fd == nil || fd.Decl.Body == nil || fd.Decl.Type.Results == nil || len(fd.Decl.Type.Results.List) != 1 {
+				continue
+			}
+			if !isBytesLike(fd.Pkg.TypesInfo.TypeOf(fd.Decl.Type.Results.List[0].Type)) {
+				continue
+			}
+			if hf := c.P.NewFuncCFG(fd); hf != nil {
+				walk(hf, fd.Decl.Body, depth+1)
+			}
+		}
+	}
+	walk(f, e, 0)
+	return out
+}
+
+// pairingExempt: (function, key) pairs whose store leaves the cached projection of the record unchanged, one reason each.
+var pairingExempt = map[string]string{
+	"pkg/core/native.(*Policy).Initialize#blockedAccountPrefix": "the Faun migration re-stamps the records of the accounts already in the list with the block time; the cache holds the account list only, not the time stamps",
 }
 
 func ruleCachePairing(c *Ctx) {
@@ -1191,7 +1386,7 @@ func ruleCachePairing(c *Ctx) {
 	}
 	cts := cacheTypes(c)
 	pairs := derivePairs(c, cts)
-	c.Floor("(storage key, cache field) pairs derived from the cache builders", len(pairs), 8)
+	c.Floor("(storage key, cache field) pairs derived from the cache builders", len(pairs), 12)
 	ws := c.P.PkgWriteSummary(natPkg)
 	g := c.P.MRG()
 	exec := g.Reach(c.P.HandlerRoots(), nil)
@@ -1200,42 +1395,287 @@ func ruleCachePairing(c *Ctx) {
 		ps = append(ps, shortSym(p.key)+"<->"+p.owner+"."+shortSym(p.field))
 	}
 	c.Note("pairs: %s", strings.Join(ps, ", "))
+	callers := map[*types.Func][]*types.Func{}
+	for caller, callees := range ws.Calls {
+		for _, cal := range callees {
+			callers[cal] = append(callers[cal], caller)
+		}
+	}
+	inExec := func(fn *types.Func) bool {
+		sf := c.P.SSAFunc(fn)
+		if sf == nil {
+			return false
+		}
+		_, ok := exec[sf]
+		return ok
+	}
+	usedExempt := map[string]bool{}
 	for _, p := range pairs {
-		// storage writers of the key
+		pc := &pairCtx{c: c, ws: ws, key: p.key, field: p.field, owner: p.owner, memo: map[string]*pairEffect{}, busy: map[string]bool{}}
 		for _, fd := range c.P.AllFuncDecls() {
-			if fd.Pkg != pk || fd.Decl.Body == nil {
-				continue
-			}
-			sf := c.P.SSAFunc(fd.Obj)
-			if sf == nil {
-				continue
-			}
-			if _, inExec := exec[sf]; !inExec {
+			if fd.Pkg != pk || fd.Decl.Body == nil || !inExec(fd.Obj) {
 				continue // cache builders and helpers outside execution
 			}
-			f := c.P.NewFuncCFG(fd)
-			writesKey := false
+			// function literals (deferred continuations of natives) are bodies of their own
+			li := 0
+			var stk []ast.Node
 			ast.Inspect(fd.Decl.Body, func(n ast.Node) bool {
-				call, ok := n.(*ast.CallExpr)
+				if n == nil {
+					stk = stk[:len(stk)-1]
+					return true
+				}
+				stk = append(stk, n)
+				lit, ok := n.(*ast.FuncLit)
 				if !ok {
 					return true
 				}
-				ki, ok := daoMutators[f.calleeSym(call)]
-				if ok && ki < len(call.Args) && f.Mentions(call.Args[ki], nil)[p.key] {
-					writesKey = true
+				li++
+				// a literal evaluated inside a statement that assigns the field (slices.DeleteFunc(cache.f, func...))
+				// runs before that write completes
+				for i := len(stk) - 2; i >= 0; i-- {
+					if st, isStmt := stk[i].(ast.Stmt); isStmt {
+						if as, isAs := st.(*ast.AssignStmt); isAs {
+							for _, w := range nodeWrites(fd.Pkg.TypesInfo, as, false) {
+								if w.Field == p.field {
+									return true
+								}
+							}
+						}
+						break
+					}
+				}
+				lf := c.P.NewLitCFG(fd.Pkg.TypesInfo, FuncKey(fd.Obj)+fmt.Sprintf("$%d", li), lit)
+				if lf == nil || len(lf.G.Blocks) == 0 {
+					return true
+				}
+				le := &pairEffect{}
+				pc.effectCFG(lf, fd.Obj, nil, 0, le)
+				if !le.stores {
+					return true
+				}
+				lkey := fmt.Sprintf("%s$%d.%s->%s", FuncKey(fd.Obj), li, shortSym(p.key), shortSym(p.field))
+				if le.gap {
+					c.Fail(lkey, c.P.Pos(lit.Pos()), fmt.Sprintf("a function literal of %s stores the record %s on a path that returns normally without the cache field %s.%s being written: a running node keeps answering from the old cached value, a restarted node reads the stored one", FuncKey(fd.Obj), shortSym(p.key), p.owner, shortSym(p.field)), le.path...)
+				} else {
+					c.OK(lkey, c.P.Pos(lit.Pos()), fmt.Sprintf("stores %s and leaves %s.%s updated on every path that returns normally", shortSym(p.key), p.owner, shortSym(p.field)))
 				}
 				return true
 			})
-			writesField := ws.Trans[fd.Obj][p.field] || literalFields(fd, natPkg, p.owner)[shortSym(p.field)]
-			if !writesKey {
+			eff := pc.effect(fd, nil, 0)
+			if !eff.stores {
 				continue
 			}
-			key := fmt.Sprintf("%s.%s", FuncKey(fd.Obj), shortSym(p.key))
-			if writesField {
-				c.OK(key, c.P.Pos(fd.Decl.Pos()), fmt.Sprintf("stores %s and updates %s.%s", shortSym(p.key), p.owner, shortSym(p.field)))
-			} else {
-				c.Fail(key, c.P.Pos(fd.Decl.Pos()), fmt.Sprintf("%s writes the storage record %s but not the cache field %s.%s that InitializeCache fills from it: a running node keeps answering from the old cached value, a restarted node reads the new one", FuncKey(fd.Obj), shortSym(p.key), p.owner, shortSym(p.field)))
+			key := fmt.Sprintf("%s.%s->%s", FuncKey(fd.Obj), shortSym(p.key), shortSym(p.field))
+			pos := c.P.Pos(fd.Decl.Pos())
+			if !eff.gap {
+				c.OK(key, pos, fmt.Sprintf("stores %s and leaves %s.%s updated on every path that returns normally", shortSym(p.key), p.owner, shortSym(p.field)))
+				continue
 			}
+			if why, ok := pairingExempt[FuncKey(fd.Obj)+"#"+shortSym(p.key)]; ok {
+				usedExempt[FuncKey(fd.Obj)+"#"+shortSym(p.key)] = true
+				c.OK(key, pos, "tabled: "+why)
+				continue
+			}
+			// a helper whose callers (inside execution) complete the update is judged at the callers
+			deferred := false
+			for _, cl := range callers[fd.Obj] {
+				if cl != fd.Obj && inExec(cl) {
+					deferred = true
+				}
+			}
+			if deferred {
+				c.OK(key, pos, fmt.Sprintf("helper: stores %s and may return before %s.%s is updated; its callers are checked with this call counted as a store", shortSym(p.key), p.owner, shortSym(p.field)))
+				continue
+			}
+			msg := fmt.Sprintf("%s stores the record %s on a path that returns normally without the cache field %s.%s being written (before or after): a running node keeps answering from the old cached value, a restarted node reads the stored one", FuncKey(fd.Obj), shortSym(p.key), p.owner, shortSym(p.field))
+			c.Fail(key, pos, msg, eff.path...)
+		}
+	}
+	for k := range pairingExempt {
+		if !usedExempt[k] {
+			c.Lost("exempt."+k, "tabled exemption "+k+" no longer matches a storing function with a gap: remove or re-read it")
+		}
+	}
+}
+
+type pairEffect struct {
+	stores bool     // some path stores the record (directly or through a callee)
+	gap    bool     // some path returns normally with the record stored and the field not written
+	path   []string // witness of the gap
+}
+
+type pairCtx struct {
+	c                 *Ctx
+	ws                *WriteSummary
+	key, field, owner string
+	memo              map[string]*pairEffect
+	busy              map[string]bool
+}
+
+// effect runs a three-state forward analysis over fd's CFG: none -> (store) dirty, any -> (field write) written,
+// written -(store)-> written. Dirty at a non-error return is a gap. Calls of package functions are classified by
+// their own effect, evaluated under the constant boolean arguments of the call (putContractState(.., false)).
+func (pc *pairCtx) effect(fd *FuncDecl, assume *Assume, depth int) *pairEffect {
+	ak := ""
+	if assume != nil {
+		var ks []string
+		for k, v := range assume.Sym {
+			ks = append(ks, fmt.Sprintf("%s=%v", k, v))
+		}
+		sort.Strings(ks)
+		ak = strings.Join(ks, ",")
+	}
+	mk := FuncKey(fd.Obj) + "|" + ak
+	if e, ok := pc.memo[mk]; ok {
+		return e
+	}
+	if pc.busy[mk] || depth > 5 {
+		return &pairEffect{}
+	}
+	pc.busy[mk] = true
+	defer delete(pc.busy, mk)
+	res := &pairEffect{}
+	pc.memo[mk] = res
+	f := pc.c.P.NewFuncCFG(fd)
+	if f == nil || len(f.G.Blocks) == 0 {
+		return res
+	}
+	pc.effectCFG(f, fd.Obj, assume, depth, res)
+	return res
+}
+
+// effectCFG is the analysis proper (also used for function literals, which run later than their creator).
+func (pc *pairCtx) effectCFG(f *FuncCFG, self *types.Func, assume *Assume, depth int, res *pairEffect) {
+	short := shortSym(pc.field)
+	const (
+		evStore = 1
+		evWrite = 2
+	)
+	events := map[*cfg.Block][]int{}
+	for _, b := range f.G.Blocks {
+		if !b.Live {
+			continue
+		}
+		for _, n := range b.Nodes {
+			for _, w := range nodeWrites(f.Info, n, false) {
+				if w.Field == pc.field {
+					events[b] = append(events[b], evWrite)
+				}
+			}
+			inspectNoLit(n, func(x ast.Node) bool {
+				switch y := x.(type) {
+				case *ast.CallExpr:
+					if ki, ok := daoMutators[f.calleeSym(y)]; ok && ki < len(y.Args) && nativeKeyMentions(pc.c, f, y.Args[ki], func(s string) bool { return s == pc.key })[pc.key] {
+						events[b] = append(events[b], evStore)
+						return true
+					}
+					d := staticCalleeDecl(pc.c.P, f.Info, y)
+					if d == nil || d.Decl.Body == nil || pkgRel(d.Pkg.Types) != natPkg || d.Obj == self {
+						return true
+					}
+					var ca *Assume
+					if d.Decl.Type.Params != nil {
+						i := 0
+						for _, fl := range d.Decl.Type.Params.List {
+							for _, nm := range fl.Names {
+								if i < len(y.Args) {
+									if v, isConst := boolConst(f.Info, y.Args[i]); isConst {
+										if ca == nil {
+											ca = &Assume{Sym: map[string]bool{}}
+										}
+										ca.Sym["param:"+nm.Name] = v
+									}
+								}
+								i++
+							}
+						}
+					}
+					ce := pc.effect(d, ca, depth+1)
+					switch {
+					case ce.stores && ce.gap:
+						events[b] = append(events[b], evStore)
+					case ce.stores || pc.ws.Trans[d.Obj][pc.field]:
+						events[b] = append(events[b], evWrite)
+					}
+				case *ast.CompositeLit:
+					if t := f.Info.TypeOf(y); t != nil && strings.HasSuffix(t.String(), "."+pc.owner) {
+						for _, el := range y.Elts {
+							if kv, ok := el.(*ast.KeyValueExpr); ok {
+								if id, ok := kv.Key.(*ast.Ident); ok && id.Name == short {
+									events[b] = append(events[b], evWrite)
+								}
+							}
+						}
+					}
+				}
+				return true
+			})
+		}
+	}
+	// forward may-analysis: set of states {none=1, written=2, dirty=4} at block entry
+	in := map[*cfg.Block]int{}
+	from := map[*cfg.Block]*cfg.Block{} // predecessor through which the dirty state first arrived
+	entry := f.G.Blocks[0]
+	in[entry] = 1
+	work := []*cfg.Block{entry}
+	out := func(b *cfg.Block, st int) int {
+		for _, ev := range events[b] {
+			ns := 0
+			for _, s := range []int{1, 2, 4} {
+				if st&s == 0 {
+					continue
+				}
+				switch {
+				case ev == evWrite:
+					ns |= 2
+				case ev == evStore && s == 1:
+					ns |= 4
+					res.stores = true
+				case ev == evStore:
+					ns |= s
+					res.stores = true
+				}
+			}
+			st = ns
+		}
+		return st
+	}
+	for len(work) > 0 {
+		b := work[0]
+		work = work[1:]
+		o := out(b, in[b])
+		for _, sc := range f.Succs(b, assume) {
+			if in[sc]|o != in[sc] {
+				if o&4 != 0 && in[sc]&4 == 0 {
+					from[sc] = b
+				}
+				in[sc] |= o
+				work = append(work, sc)
+			}
+		}
+	}
+	var rets []site
+	if f.Type.Results != nil && len(f.Type.Results.List) > 0 && isErrorType(f.Info.TypeOf(f.Type.Results.List[len(f.Type.Results.List)-1].Type)) {
+		rets = f.OKReturns()
+	} else {
+		rets = f.OKReturns() // includes falling off the end; no error result: every return is normal
+	}
+	for _, r := range rets {
+		st, seen := in[r.blk]
+		if !seen {
+			continue
+		}
+		if out(r.blk, st)&4 != 0 {
+			res.gap = true
+			// witness: walk the dirty chain back
+			var chain []string
+			b := r.blk
+			for i := 0; b != nil && i < 40; i++ {
+				chain = append([]string{f.blockPos(b)}, chain...)
+				b = from[b]
+			}
+			res.path = append(chain, "returns at "+pc.c.P.Pos(r.node.Pos()))
+			break
 		}
 	}
 }
